@@ -8,6 +8,7 @@ import (
 	"github.com/ugorji/go/codec"
 	"reflect"
 	"sort"
+	"strconv"
 	"strings"
 	"time"
 	"unsafe"
@@ -113,6 +114,8 @@ func SexpToJson(exp Sexp) string {
 		return jsonQuote(e.name)
 	case *SexpStr:
 		return jsonQuote(e.S)
+	case *SexpFloat:
+		return jsonFloat(e.Val)
 	default:
 		return exp.SexpString(nil)
 	}
@@ -146,6 +149,22 @@ func jsonQuote(s string) string {
 	}
 	b = append(b, '"')
 	return string(b)
+}
+
+// jsonFloat writes a float as a JSON number that the decoder reads back
+// as the same float: shortest digits in the 'g' layout (exponent form
+// for very small and very large values; the plain form of 1e-250 has
+// hundreds of zeros, which the codec's number scanner misreads), and
+// always with a fraction or an exponent, because "2" would come back as
+// an integer and 9223372036854775808 is rejected by the decoder's
+// integer path. NaN and the infinities have no JSON form and stay as
+// printed.
+func jsonFloat(f float64) string {
+	str := strconv.FormatFloat(f, 'g', -1, SexpFloatSize)
+	if !strings.ContainsAny(str, ".eIN") {
+		str += ".0"
+	}
+	return str
 }
 
 // jsonKey returns the JSON member name for a hash key: the text of a
